@@ -145,7 +145,7 @@ DIRECTED += [
      _c("P", "c1", "def c1(x):\n    return c0(x) * 3"), _r("", "c0", {"lit": 50})],
 ]
 
-# regression probes of the mechanisms listed in known_findings.json (K_METHOD, K_CLASSATTR, K_TRY, K_SPACE x 2)
+# regression probes of the mechanisms listed in known_findings.json (K_METHOD, K_CLASSATTR, K_TRY, K_SPACE x 2, K_PARAM)
 KNOWN_SHAPES = [
     [_sp("A"), _r("A", "r", {"lit": 2}),
      _c("A", "c0", "def c0(x):\n    class K:\n        def m(self, z):\n            return z + r\n    return K().m(x)")],
@@ -160,6 +160,9 @@ KNOWN_SHAPES = [
      {"op": "space", "parent": "", "name": "P", "bases": [], "params": [["p", None]],
       "formula": "def _formula(p):\n    return {'base': _space.model.B}"},
      _c("P", "c0", "def c0(x):\n    return -1")],
+    [{"op": "space", "parent": "", "name": "P", "bases": [], "params": [["p", None], ["oct", 3]],
+      "formula": "def _formula(p, oct=3):\n    return None"},
+     _c("P", "c0", "def c0(x):\n    return p * 10 + oct + x")],
 ]
 
 
@@ -441,6 +444,7 @@ K_METHOD = "known shape: global read in a method of a class defined in the formu
 K_CLASSATTR = "known shape: class attribute initialised from a global of the same name"
 K_TRY = "known shape: try statement with nested scopes in an except handler and in the else block"
 K_SPACE = "known shape: parameter formula returning refs or base"
+K_PARAM = "known shape: parameter of a parametrised space named like a built-in"
 _SCOPES = None
 
 
@@ -547,6 +551,27 @@ def known_space_shape(ops, q, b, csp=None):
             own = [forms[".".join(parts[:i])] for i in range(1, len(parts) + 1) if ".".join(parts[:i]) in forms]
             if any(mm.group(2) in f["refs"] for f in own):
                 return K_SPACE
+    return None
+
+
+def known_param_shape(ops, q, b, src):
+    """K_PARAM when the package fails on a built-in function where the model has the argument: a parametrised
+    space on the queried path has a parameter named like a built-in, the failing formula reads that name, and the
+    error message names the built-in function object"""
+    import ast
+    import builtins
+    if not (b[0] == "err" and len(b) > 2 and "builtin_function_or_method" in str(b[2])):
+        return None
+    names = set()
+    for op in ops:
+        if op.get("op") == "space" and op.get("params"):
+            names |= {p_[0] for p_ in op["params"] if p_[0] in vars(builtins)}
+    tree = _ast(src or "")
+    if not names or tree is None:
+        return None
+    read = {n.id for n in ast.walk(tree) if isinstance(n, ast.Name) and isinstance(n.ctx, ast.Load)}
+    if names & read and any(st[0] in ("c", "g") for st in q["path"]):
+        return K_PARAM
     return None
 
 
@@ -745,7 +770,7 @@ def run_variant(case, ops, tag, root, cnt, matrix, vio, sample):
                 cached = bool(c.is_cached)
             except Exception:     # noqa
                 pass
-            sig = known_shape(b, src) or known_space_shape(ops, q, b, csp)
+            sig = known_shape(b, src) or known_space_shape(ops, q, b, csp) or known_param_shape(ops, q, b, src)
             if sig is None:
                 # coarse while unshrunk (few distinct signatures => few confirmation replays); the grammar
                 # forms of the minimal formula are added once the case has been shrunk
